@@ -50,7 +50,7 @@ def same_list(a, b):
 def run(rep):
     mir = load_mir(rep); L = Layouts(REPO)
     rep.bounds = {'backend': 'HashMap only', 'keys': 'one statistic per item type and value form', 'draws': 'two warm-up and two sampling draws', 'vector length': 2}
-    rep.assumptions += ['std::collections::HashMap is modelled as an insertion-ordered map with string keys (iteration order is not observable in the assertions)', 'Value / ItemType pairs are those a derived Storable can emit (C16)']
+    rep.assumptions += ['std::collections::HashMap is a string-keyed map whose iteration order is unspecified: maps created one after the other iterate in opposite orders (insertion / reverse insertion) and every query is run with both assignments', 'Value / ItemType pairs are those a derived Storable can emit (C16)']
     rep.outside += ['Arrow, ndarray and Zarr encodings and files; of the CSV backend only the column-name / element-index mapping of multi-dimensional variables is covered', 'cross-backend agreement', 'store_warmup', 'multi-chain assembly in the sampler']
     parts(rep, [lambda: buffers(rep, mir, L), lambda: chain_storage(rep, mir, L), lambda: unique_names(rep, mir, L), lambda: csv_index(rep, mir, L)])
 
@@ -76,28 +76,42 @@ def buffers(rep, mir, L):
     if bad: rep.violated('C14.a value buffers', 'hashmap.buffer', 'HashMap value buffer: %s' % (bad[0],), model={'problems': [str(b) for b in bad]})
     else: rep.holds('C14.a HashMapValue::new/push: every declared item type accepts every value form it can receive and appends exactly the values in order (%d pushes)' % n)
 
+ALLDRAWVARS = [('x', 'F64', 'F64'), ('y', 'F64', 'ScalarF64'), ('z', 'I64', 'ScalarI64')]
 def chain_storage(rep, mir, L):
+    for parity in (0, 1): _chain_storage(rep, mir, L, parity, ALLDRAWVARS)
+
+class _Probe:
+    """a throw-away report used to classify a finalize panic (does it persist with a single draw variable?)"""
+    def __init__(self): self.keys = []; self.paths = 0
+    def violated(self, name, key, *a, **k): self.keys.append(key)
+    def holds(self, *a, **k): pass
+    def cover(self, *a, **k): pass
+    def absorb_vm(self, vm): pass
+
+def _chain_storage(rep, mir, L, parity, DRAWVARS):
     """new -> record_sample (warm-up, warm-up, sample, sample) -> finalize: no panic, every key returns warm-up values followed by sample values"""
-    h = H(mir, L); vm = h.vm; m = Machine()
+    h = H(mir, L); vm = h.vm; vm.hm_parity = parity; m = Machine()
     keys = []
     for t in ITEMS:
         for variant in ALLOWED[t]: keys.append(('%s_%s' % (t.lower(), variant), t, variant))
     types = Seq([Struct((Str(k), h.item(t))) for (k, t, v) in keys])
-    pc = m.alloc(types); dc = m.alloc(Seq([Struct((Str('x'), h.item('F64')))]))
+    pc = m.alloc(types); dc = m.alloc(Seq([Struct((Str(nm), h.item(t))) for (nm, t, vr) in DRAWVARS]))
     new = mir.method('HashMapChainStorage', None, 'new'); rec = mir.method('HashMapChainStorage', 'ChainStorage', 'record_sample'); fin = mir.method('HashMapChainStorage', 'ChainStorage', 'finalize')
-    outs = vm.run(new, [SliceRef(pc, (), 0, len(keys)), SliceRef(dc, (), 0, 1)], m)
+    outs = vm.run(new, [SliceRef(pc, (), 0, len(keys)), SliceRef(dc, (), 0, len(DRAWVARS))], m)
     if len(outs) != 1 or outs[0][1] != 'ret': rep.violated('C14.b HashMapChainStorage::new', 'hashmap.new', 'HashMapChainStorage::new panics: %s' % str(outs[0][2])[:200]); return
     (m, _, st) = outs[0]; sc = m.alloc(st)
-    want = {k: {'warm': [], 'samp': []} for (k, t, v) in keys}; wantx = {'warm': [], 'samp': []}
+    want = {k: {'warm': [], 'samp': []} for (k, t, v) in keys}; wantx = {nm: {'warm': [], 'samp': []} for (nm, t, vr) in DRAWVARS}
     for tuning in (True, True, False, False):
         stats = []
         for (k, t, variant) in keys:
             v, es = h.value(t, variant); stats.append(Struct((Str(k), SOME(v)))); want[k]['warm' if tuning else 'samp'] += es
         stats.append(Struct((Str('absent_statistic_placeholder'), NONE())))
         stats = [s for s in stats if s.f[0].s != 'absent_statistic_placeholder'] + [Struct((Str(keys[0][0]), NONE()))]   # an absent (None) statistic records nothing
-        xv, xs = h.value('F64', 'F64'); wantx['warm' if tuning else 'samp'] += xs
+        dvals = []
+        for (nm, t, vr) in DRAWVARS:
+            xv, xs = h.value(t, vr); wantx[nm]['warm' if tuning else 'samp'] += xs; dvals.append(Struct((Str(nm), SOME(xv))))
         info = L.make('Progress', {'draw': z3.Int('d'), 'chain': 0, 'diverging': False, 'tuning': tuning, 'step_size': h.A.fresh('eps'), 'num_steps': 3})
-        o = vm.run(rec, [Ref(sc), Ref(m.alloc(Opaque('settings'))), Seq(stats), Seq([Struct((Str('x'), SOME(xv)))]), Ref(m.alloc(info))], m)
+        o = vm.run(rec, [Ref(sc), Ref(m.alloc(Opaque('settings'))), Seq(stats), Seq(dvals), Ref(m.alloc(info))], m)
         if len(o) != 1 or o[0][1] != 'ret' or o[0][2].name != 'Ok':
             rep.violated('C14.b record_sample', 'hashmap.record', 'record_sample fails for values of the declared types: %s' % str(o[0][2])[:300]); return
         m = o[0][0]
@@ -106,7 +120,13 @@ def chain_storage(rep, mir, L):
     pan = [x for x in o if x[1] == 'panic']
     if pan:
         msg = str(pan[0][2])[:300]
-        nat = native.run('hashmap_finalize', {})
+        only_draws = False
+        if len(DRAWVARS) > 1 and not isinstance(rep, _Probe):
+            pr = _Probe(); _chain_storage(pr, mir, L, parity, DRAWVARS[:1]); only_draws = not any(k.startswith('hashmap.finalize.panic') for k in pr.keys)
+        if only_draws:    # the panic disappears with a single draw variable: no native driver with several differently typed draw variables exists, the symbolic trace is the evidence
+            rep.violated('C14.b finalize does not panic for any set of draw variables', 'hashmap.finalize.panic.draws', 'HashMapChainStorage::finalize panics when combining the warm-up and sampling values of the draw variables %s (HashMap iteration orders: parity %d): %s' % ([d[0] for d in DRAWVARS], parity, msg), model={'draw variables': [list(d) for d in DRAWVARS], 'parity': parity})
+            return
+        nat = native.run('hashmap_finalize', {}) if not isinstance(rep, _Probe) else None
         rep.violated('C14.b finalize does not panic for any declared statistic type', 'hashmap.finalize.panic', 'HashMapChainStorage::finalize panics when combining warm-up and sampling values: %s' % msg, model={'keys': [k for (k, t, v) in keys]}, native=nat)
         return
     res = o[0][2]
@@ -116,9 +136,10 @@ def chain_storage(rep, mir, L):
     for (k, t, v) in keys:
         if k not in stats: bad.append(('statistic missing from the finalized trace', k)); continue
         if not same_list(list(stats[k].f[0].items), want[k]['warm'] + want[k]['samp']): bad.append(('finalized values are not warm-up followed by sampling values in recording order', k))
-    if 'x' not in draws or not same_list(list(draws['x'].f[0].items), wantx['warm'] + wantx['samp']): bad.append(('draw variable values wrong', 'x'))
+    for (nm, t, vr) in DRAWVARS:
+        if nm not in draws or not same_list(list(draws[nm].f[0].items), wantx[nm]['warm'] + wantx[nm]['samp']): bad.append(('draw variable does not come back as its own warm-up values followed by its own sampling values', nm))
     if bad: rep.violated('C14.b finalize content', 'hashmap.finalize.content', 'HashMap trace differs from what was recorded: %s' % (bad[0],), model={'problems': [str(b) for b in bad]})
-    else: rep.holds('C14.b HashMapChainStorage new/record_sample/finalize: every statistic of every declared type comes back as warm-up values followed by sampling values in recording order; absent values record nothing (%d keys)' % len(keys))
+    else: rep.holds('C14.b HashMapChainStorage new/record_sample/finalize: every statistic of every declared type comes back as warm-up values followed by sampling values in recording order; absent values record nothing (%d statistics, %d draw variables; HashMap iteration orders: parity %d)' % (len(keys), len(DRAWVARS), parity))
 
 def unique_names(rep, mir, L):
     """a keyed backend stores one buffer per statistic name: the names declared by every preset must be distinct, otherwise two statistics are
